@@ -205,7 +205,17 @@ structure NpFns where
   broadcastTo : FnPat
   concatenate : FnPat
 
-def FnPat.obj (pat : FnPat) : PyObj := pat.path.foldl PyObj.attr (.imp pat.imp pat.from_ pat.as_)
+/-- The pattern list of a backend over these functions, in the order of `frontend/impl/numpy.py`. -/
+def NpFns.patterns (fns : NpFns) : List Pattern :=
+  [.skipReshape fns.reshape, .skipTranspose fns.transpose, .skipBroadcastTo fns.broadcastTo, .skipConcatenate fns.concatenate,
+   .inlineGraph, .skipCast]
+
+/-- The object `import … ; ….a.b.c` (`rpath`: last attribute first). -/
+def FnPat.robj (pat : FnPat) : List String → PyObj
+  | [] => .imp pat.imp pat.from_ pat.as_
+  | k :: rest => .attr (pat.robj rest) k
+
+def FnPat.obj (pat : FnPat) : PyObj := pat.robj pat.path.reverse
 
 def unlit {V : Type} : List (RTok V) → Option (List Tok)
   | [] => some []
@@ -235,7 +245,10 @@ def concatCall {α : Type} (A : Alg α) (ea : EApp (PV α)) : Except String (PV 
   | [.lit (.open_ c n) :: es], [("axis", [.lit (.atom (.int k))])] =>
     if (c == .tuple || c == .list) && 0 ≤ k then
       match tensorsOf es with
-      | some ts => if ts.length == n then do pure (.tensor (← Optimize.step A ts (.concat (List.range n) k.toNat))) else throw "malformed list"
+      | some ts =>
+        if ts.length == n && ts.all (fun t => t.data.length == prod t.shape) then do
+          pure (.tensor (← Optimize.step A ts (.concat (List.range n) k.toNat)))
+        else throw "malformed list"
       | none => throw "concatenate of something that is not a tensor"
     else throw "call form outside the pure node language"
   | _, _ => throw "call form outside the pure node language"
